@@ -31,6 +31,7 @@ type vByteFaulter struct {
 	fired int
 	armed func() bool
 	log   []string
+	fr    *vFirer
 }
 
 func (f *vByteFaulter) mangle(l *verifsim.Link, data []byte) []byte {
@@ -41,13 +42,23 @@ func (f *vByteFaulter) mangle(l *verifsim.Link, data []byte) []byte {
 		return data
 	}
 	tp := f.rc.tape
-	if !tp.Bool("bf.fire", f.pm) {
+	if f.fr == nil {
+		f.fr = &vFirer{rc: f.rc, label: "bf.fire", pm: f.pm}
+	}
+	if !f.fr.fire() {
 		return data
 	}
 	// position: biased towards the structural bytes of a protocol line
 	n := len(data)
 	var pos int
-	switch tp.Draw("bf.where", 7) {
+	where := tp.Draw("bf.where", 7)
+	if v, ok := f.rc.enumInt("enum_pos"); ok {
+		where = v % 7
+		if where == 6 {
+			where = 5
+		}
+	}
+	switch where {
 	case 0:
 		pos = 0
 	case 1:
@@ -69,7 +80,11 @@ func (f *vByteFaulter) mangle(l *verifsim.Link, data []byte) []byte {
 	k := 1 + tp.Rare("bf.k", 16, 300)
 	out := append([]byte(nil), data...)
 	kind := ""
-	switch tp.Draw("bf.kind", 5) {
+	kindSel := tp.Draw("bf.kind", 5)
+	if v, ok := f.rc.enumInt("enum_kind"); ok {
+		kindSel = v % 5
+	}
+	switch kindSel {
 	case 0:
 		out[pos] ^= 1 << uint(tp.Draw("bf.bit", 8))
 		kind = "flip"
@@ -152,9 +167,15 @@ func vScenarioC02(rc *runCtx) {
 	cfg, o, before := vSmallXfer(rc, []int{5, 20})
 	x := newXferWorld(rc, o)
 	bf := &vByteFaulter{rc: rc, pm: []int{30, 80, 200}[tp.Draw("bf.rate", 3)], max: 1 + tp.Pick("bf.max", 6, 2, 1)}
+	if _, ok := rc.enumInt("enum_k"); ok {
+		bf.max = 1
+	}
 	// attach to one or both directions of one hop
 	hop := tp.Draw("bf.hop", len(x.up))
 	dirs := tp.Pick("bf.dir", 2, 2, 1)
+	if _, ok := rc.enumInt("enum_k"); ok {
+		dirs = 2 // both directions of the hop are candidate places
+	}
 	attach := func(l *verifsim.Link) {
 		prev := l.Mangle
 		l.Mangle = func(l *verifsim.Link, d []byte) []byte {
@@ -175,6 +196,9 @@ func vScenarioC02(rc *runCtx) {
 	rc.w.Run(x.finished)
 	rep := x.report()
 	rc.res.Scenario["faults_log"] = bf.log
+	if bf.fr != nil {
+		rc.res.Scenario["enum_places"] = bf.fr.count
+	}
 	rc.res.Scenario["client_fail"] = vClip(rep.clientFail, 120)
 	rc.res.Scenario["server_fail"] = vClip(rep.serverFail, 120)
 	if bf.fired == 0 {
@@ -274,15 +298,21 @@ func vScenarioC11(rc *runCtx) {
 			actSeen = true
 		}
 	}
-	kind := []string{"silent-up", "silent-down", "silent-both", "close-up", "close-down", "break-up", "break-down", "disk-write", "disk-short-write", "src-read-error", "src-shrink", "stall-client", "stall-server"}[tp.Draw("c11.kind", 13)]
+	c11kinds := []string{"silent-up", "silent-down", "silent-both", "close-up", "close-down", "break-up", "break-down", "disk-write", "disk-short-write", "src-read-error", "src-shrink", "stall-client", "stall-server"}
+	kind := c11kinds[tp.Draw("c11.kind", 13)]
+	if v, ok := rc.enumInt("enum_kind"); ok {
+		kind = c11kinds[v%13]
+	}
 	pm := []int{40, 120, 400}[tp.Draw("c11.rate", 3)]
 	var faultAt time.Duration = -1
 	brokeUp, brokeDown := false, false
+	fr := &vFirer{rc: rc, label: "c11.fire", pm: pm, once: true}
+	x.firers = append(x.firers, fr)
 	fire := func() bool {
 		if faultAt >= 0 || !actSeen {
 			return false
 		}
-		return tp.Bool("c11.fire", pm)
+		return fr.fire()
 	}
 	mark := func() {
 		faultAt = w.Now()
@@ -401,6 +431,7 @@ func vScenarioC11(rc *runCtx) {
 	rc.res.Scenario["client_fail"] = vClip(rep.clientFail, 160)
 	rc.res.Scenario["server_fail"] = vClip(rep.serverFail, 160)
 	rc.res.Scenario["fault_at"] = faultAt.String()
+	rc.res.Scenario["enum_places"] = x.firerPlaces()
 	if faultAt < 0 {
 		vCheckFidelity(rc, x, rep, before, false)
 		rc.res.Nontrivial = false
